@@ -1,15 +1,322 @@
-import CoclsModel.Mutex
-/-! # C08 — property theorems (placeholder while the invariant proofs are being written) -/
-namespace Cocls.Mutex
+import CoclsModel.MutexProofs
+/-!
+# C08 — coroutine mutex: FIFO hand-off, no lost request (property theorems)
 
-/-- `try_lock`/`ready()` is one step and succeeds iff the mutex is free -/
-theorem c08_try_lock_iff_free (c : Cfg) (s : State) (t a : Nat) (r : Round) (hpc : s.pc a = Pc.top)
-    (hr : curRound c s a = some r) :
-    ((agentStep c s t a).1.pc a = Pc.crit ↔ s.req = []) := by
+Model `Mutex.lean`, proofs `MutexProofs.lean`; quantifier as in `Props/C07.lean`: every configuration `c` with `c.WF`,
+every state reachable from `init c` by any sequence of agent activities permitted by `canRun` (which covers every
+schedule of enabled OS threads: `trun_init_reachable`).  `pending s` is `queue ++ reverse (nodes of the stack)` without
+the found-null acquirer's own node; `s.stamp a` is the value of the clock at `a`'s successful publishing CAS.
+-/
+namespace Cocls.Mutex
+variable {c : Cfg} {s : State}
+
+/-- **Arrival order.** The pending requests (`queue ++ reversed stack`, without the found-null acquirer's own node)
+    are strictly sorted by arrival stamp, and every stamp is below the clock. -/
+theorem c08_pending_sorted (hwf : c.WF) (hs : Reachable c s) :
+    (pending s).Pairwise (fun x y => s.stamp x < s.stamp y) ∧ ∀ x ∈ pending s, s.stamp x < s.clock := by
+  have h := inv_reachable hwf hs
+  refine ⟨h.stampQ.sublist (pending_sublist s), ?_⟩
+  intro x hx
+  apply h.stampC
+  have hx' := (pending_sublist s).subset hx
+  have hc := h.cnt x
+  have : 0 < s.queue.count x + (nodesOf s.req).count x := by
+    rcases List.mem_append.1 hx' with h1 | h1
+    · have := List.count_pos_iff.2 h1; omega
+    · have := List.count_pos_iff.2 (List.mem_reverse.1 h1); omega
+  split at hc
+  · assumption
+  · omega
+
+/- two requests in the stack (newest first), then moved to the queue: the pending list is the same, in arrival order -/
+example : Reachable cfgEx sP ∧ nodesOf sP.req = [2, 1] ∧ sP.queue = [] ∧ pending sP = [1, 2] ∧
+    (sP.stamp 1, sP.stamp 2, sP.clock) = (0, 1, 2) := ⟨reachable_of_run _ runP (by decide), by decide⟩
+example : nodesOf sA.req = [] ∧ sA.queue = [1, 2] ∧ pending sA = [1, 2] := by decide
+
+/-- stamps are handed out by the publishing CAS in the order of these operations -/
+theorem c08_publish_stamp (c : Cfg) (s : State) (t a : Nat) (prev : Seen) (hpc : s.pc a = Pc.sub prev)
+    (hseen : seenOf s.req = prev) :
+    (agentStep c s t a).1.stamp a = s.clock ∧ (agentStep c s t a).1.clock = s.clock + 1 ∧
+    (agentStep c s t a).1.req = Elem.node a :: s.req := by
   unfold agentStep
-  simp only [hpc, hr]
-  cases h : s.req with
-  | nil => simp [setPc]
-  | cons x xs => cases hf : r.fl <;> simp [setPc, hf]
+  simp [hpc, hseen, setPc]
+
+example : (agentStep cfgEx (arun cfgEx (init cfgEx) (runP.take 6)) 2 2).1.stamp 2 = 1 ∧
+    (arun cfgEx (init cfgEx) (runP.take 6)).clock = 1 ∧ sP.clock = 2 := by decide
+
+/-- **No lost request.** An agent waits for the lock (parked coroutine / blocking waiter whose flag is not set)
+    iff it is a pending request, and then it has exactly one node in `queue ++ stack`. -/
+theorem c08_no_lost_request (hwf : c.WF) (hs : Reachable c s) (a : Nat) :
+    (Waiting s a ↔ a ∈ pending s) ∧ (Waiting s a → s.queue.count a + (nodesOf s.req).count a = 1) := by
+  have h := inv_reachable hwf hs
+  have hc := h.cnt a
+  constructor
+  · constructor
+    · intro hw
+      have hnb : s.pc a ≠ Pc.build := by
+        intro e; simp [Waiting, e, isWaiting] at hw
+      rw [if_pos (show Listed s a from Or.inl hw)] at hc
+      unfold pending
+      rw [List.mem_append, List.mem_reverse, List.mem_filter]
+      by_cases hq : a ∈ s.queue
+      · exact Or.inl hq
+      · right
+        have : s.queue.count a = 0 := List.count_eq_zero.2 hq
+        exact ⟨List.count_pos_iff.1 (by omega), by simpa using hnb⟩
+    · intro hm
+      unfold pending at hm
+      rw [List.mem_append, List.mem_reverse, List.mem_filter] at hm
+      have hl : Listed s a := by
+        split at hc
+        · assumption
+        · rcases hm with h1 | h1
+          · have := List.count_pos_iff.2 h1; omega
+          · have := List.count_pos_iff.2 h1.1; omega
+      rcases hl with hw | hb
+      · exact hw
+      · rcases hm with h1 | h1
+        · have := (h.bld a hb).2; rw [this] at h1; simp at h1
+        · simp [hb] at h1
+  · intro hw
+    rw [hc, if_pos (show Listed s a from Or.inl hw)]
+
+example : Waiting sP 1 ∧ Waiting sP 2 ∧ ¬ Waiting sP 0 ∧ pending sP = [1, 2] := by decide
+/- a blocked waiter whose flag is not set -/
+example : Reachable cfgSy sS ∧ Waiting sS 1 ∧ pending sS = [1] ∧ canRun sS 1 = false :=
+  ⟨reachable_of_run _ runS (by decide), by decide⟩
+
+/-- **Never locked without an owner.** -/
+theorem c08_not_stuck_locked (hwf : c.WF) (hs : Reachable c s) :
+    (s.req ≠ [] → ∃ a, Owner s a ∧ canRun s a = true) ∧
+    ((∀ a, ¬ Owner s a) → s.req = [] ∧ s.queue = [] ∧ pending s = []) ∧
+    (s.req = [] → ∀ a, ¬ Owner s a) := by
+  have h := inv_reachable hwf hs
+  refine ⟨?_, ?_, ?_⟩
+  · intro hne
+    apply Classical.byContradiction
+    intro hno
+    have : ∀ a, ¬ Owner s a := fun a ha => hno ⟨a, ha, owner_canRun ha⟩
+    exact hne (h.free this).1
+  · intro hno
+    have := h.free hno
+    refine ⟨this.1, this.2, ?_⟩
+    simp [pending, this.1, this.2]
+  · intro hr a ha
+    by_cases hb : s.pc a = Pc.build
+    · have := (h.bld a hb).1; rw [hr] at this; simp at this
+    · have := h.door a ha hb; rw [hr] at this; simp at this
+
+example : sA.req = [Elem.door] ∧ Owner sA 0 ∧ canRun sA 0 = true := by decide
+example : sZ.req = [] ∧ (∀ a, a < 3 → ¬ Owner sZ a) := by decide
+
+/-- **Deadlock freedom (agent level).** If no agent's code can run, every agent has finished all its rounds. -/
+theorem c08_no_deadlock (hwf : c.WF) (hs : Reachable c s) (hstuck : ∀ a, canRun s a = false) : ∀ a, s.pc a = Pc.done := by
+  have h := inv_reachable hwf hs
+  have hno : ∀ a, ¬ Owner s a := fun a ha => by have := owner_canRun ha; rw [hstuck a] at this; cases this
+  obtain ⟨hr, hq⟩ := h.free hno
+  intro a
+  have hc := h.cnt a
+  rw [hr, hq] at hc
+  have hnl : ¬ Listed s a := by
+    intro hl; rw [if_pos hl] at hc; simp at hc
+  have hst := hstuck a
+  unfold canRun at hst
+  unfold Listed at hnl
+  generalize s.pc a = p at *
+  cases p <;> simp_all [isWaiting]
+
+/- in `sS` only the owner 0 can run (1 is blocked without its flag … ) -/
+example : canRun sS 0 = true ∧ canRun sS 1 = false := by decide
+/- … and at the end of scenario `runZ` nobody can run and everybody is done -/
+example : Reachable cfgEx sZ ∧ (∀ a, a < 3 → canRun sZ a = false ∧ sZ.pc a = Pc.done) :=
+  ⟨reachable_of_run _ runZ (by decide), by decide⟩
+
+/-- the found-null acquirer is older than every pending request -/
+theorem c08_builder_first (hwf : c.WF) (hs : Reachable c s) (o : Nat) (ho : s.pc o = Pc.build) :
+    ∀ y ∈ pending s, s.stamp o < s.stamp y := by
+  have h := inv_reachable hwf hs
+  intro y hy
+  unfold pending at hy
+  rw [(h.bld o ho).2, List.nil_append, List.mem_reverse, List.mem_filter] at hy
+  refine h.bldFirst o y ho hy.1 ?_
+  rintro rfl
+  simp [ho] at hy
+
+/- 1 found the mutex free (after 0's release) and has not yet run `build_queue`; 2 published behind it -/
+example : Reachable cfgEx sN ∧ sN.pc 1 = Pc.build ∧ Owner sN 1 ∧ nodesOf sN.req = [2, 1] ∧ pending sN = [2] ∧
+    sN.stamp 1 < sN.stamp 2 := ⟨reachable_of_run _ runN (by decide), by decide⟩
+example : (agentStep cfgEx sN 1 1).1.queue = [2] ∧ (agentStep cfgEx sN 1 1).1.req = [Elem.door] := by decide
+
+/-- **FIFO hand-over.** Whenever an activity of `x` hands the lock over (`grantee s x = some b`), `b` is the pending
+    request with the smallest arrival stamp; after the step `b` is the owner, `x` is not, `b` has one more grant and
+    the pending list lost exactly its head. -/
+theorem c08_fifo (hwf : c.WF) (hs : Reachable c s) (t x b : Nat) (hx : canRun s x = true) (hg : grantee s x = some b) :
+    let s' := (agentStep c s t x).1
+    (pending s).head? = some b ∧ (∀ y ∈ pending s, y ≠ b → s.stamp b < s.stamp y) ∧
+    Owner s' b ∧ ¬ Owner s' x ∧ s'.grants b = s.grants b + 1 ∧ pending s' = (pending s).tail := by
+  intro s'
+  have h := inv_reachable hwf hs
+  have h' : Inv c s' := inv_step hwf h t hx
+  obtain ⟨k, he, rest, hq⟩ := step_handOver c s t x b hg
+  have hsp := handOver_spec c { s with incs := k } t x b rest hq
+  have hs' : s' = (handOver c { s with incs := k } t x).1 := he
+  have hpcx : s.pc x = Pc.afterCs ∨ s.pc x = Pc.relHand := by
+    unfold grantee at hg; split at hg
+    · assumption
+    · cases hg
+  obtain ⟨hw, hnb, hc1, hc2⟩ := h.head_facts hq
+  have hbx : b ≠ x := by rintro rfl; rcases hpcx with e | e <;> simp [e, isWaiting] at hw
+  have hpend : pending s = b :: (rest ++ (nodesOf s.req).reverse) := by
+    unfold pending
+    rw [hq, List.filter_eq_self.2 (fun y _ => by simpa using hnb y)]; rfl
+  have hpc' : s'.pc = (if c.kind b = AKind.coro then upd (upd s.pc b Pc.crit) x Pc.relDone else upd s.pc x Pc.relDone) := by
+    rw [hs', hsp.2.2.2.2.2.1]
+  have hfl' : s'.flag = (if c.kind b = AKind.sync then upd s.flag b true else s.flag) := by
+    rw [hs', hsp.2.2.2.2.2.2]
+  have hnb' : ∀ y, s'.pc y ≠ Pc.build := by
+    intro y
+    rw [hpc']
+    have := hnb y
+    split <;> simp only [upd_apply] <;> (repeat' split) <;> simp_all
+  refine ⟨by rw [hpend]; rfl, ?_, ?_, ?_, ?_, ?_⟩
+  · intro y hy hyb
+    rw [hpend] at hy
+    rcases List.mem_cons.1 hy with e | e
+    · exact absurd e hyb
+    · have hQ := h.stampQ
+      rw [hq, List.cons_append, List.pairwise_cons] at hQ
+      exact hQ.1 y e
+  · unfold Owner
+    rw [hpc', hfl']
+    cases hk : c.kind b
+    · -- sync: flag set
+      have hkw : s.pc b = Pc.waitFlag ∨ s.pc b = Pc.blocked := by
+        have hkp := h.kindP b
+        generalize s.pc b = pb at *
+        cases pb <;> simp_all [isWaiting]
+      rcases hkw with e | e <;> simp [hbx, e, isOwner]
+    · simp [hbx, isOwner]
+  · unfold Owner
+    rw [hpc']
+    have hfx : s'.flag x = s.flag x := by
+      rw [hfl']; split <;> simp [Ne.symm hbx]
+    split <;> simp [isOwner]
+  · rw [hs', hsp.2.2.1]; simp
+  · unfold pending
+    rw [hs', hsp.1, hsp.2.1, ← hs', List.filter_eq_self.2 (fun y _ => by simpa using hnb' y), hq,
+      List.filter_eq_self.2 (fun y _ => by simpa using hnb y)]
+    rfl
+
+/- the hand-over `sA → sB`: 1 (stamp 0) before 2 (stamp 1) -/
+example : grantee sA 0 = some 1 ∧ pending sA = [1, 2] ∧ sA.stamp 1 < sA.stamp 2 ∧ Owner sB 1 ∧ pending sB = [2] := by decide
+/- the whole scenario grants in arrival order -/
+example : sZ.grantLog = [0, 1, 2, 2] := by decide
+
+/-- **No barging.** An agent acquires the mutex by a CAS of its own (`ready()` or the publishing CAS on `null`)
+    only when the mutex is free: no owner, no pending request. -/
+theorem c08_no_barging (hwf : c.WF) (hs : Reachable c s) (t x : Nat)
+    (hacq : s.pc x = Pc.top ∨ ∃ p, s.pc x = Pc.sub p) (hown : Owner (agentStep c s t x).1 x) :
+    s.req = [] ∧ s.queue = [] ∧ pending s = [] ∧ ∀ y, ¬ Owner s y := by
+  have h := inv_reachable hwf hs
+  have hreq : s.req = [] := by
+    rcases hacq with hpc | ⟨p, hpc⟩
+    · unfold agentStep at hown
+      simp only [hpc] at hown
+      split at hown
+      · simp [Owner, setPc, isOwner] at hown
+      · rename_i r hr
+        split at hown
+        · assumption
+        · exfalso
+          revert hown
+          cases r.fl <;> simp [Owner, setPc, isOwner]
+    · unfold agentStep at hown
+      simp only [hpc] at hown
+      split at hown
+      · rename_i hseen
+        by_cases hp : p = Seen.null
+        · subst hp; exact seenOf_eq_null.1 hseen
+        · exfalso
+          simp only [hp, if_false] at hown
+          cases hk : c.kind x
+          · have := h.subF x p hpc hk
+            simp [Owner, setPc, hk, isOwner, this] at hown
+          · simp [Owner, setPc, hk, isOwner] at hown
+      · simp [Owner, setPc, isOwner] at hown
+  have hno := (c08_not_stuck_locked hwf hs).2.2 hreq
+  have := (c08_not_stuck_locked hwf hs).2.1 hno
+  exact ⟨this.1, this.2.1, this.2.2, hno⟩
+
+/- 1's publishing CAS on `null` in scenario `runN` (5th activity) happens when nothing is pending -/
+example : (arun cfgEx (init cfgEx) (runN.take 4)).req = [] ∧ pending (arun cfgEx (init cfgEx) (runN.take 4)) = [] ∧
+    Owner (arun cfgEx (init cfgEx) (runN.take 5)) 1 := by decide
+
+/-- **`try_lock`** is one synchronising operation, succeeds iff the mutex is free (iff nobody owns it) and never
+    parks or blocks: afterwards the agent is at `crit` or at `tryFail`, from where it goes straight on to its next round. -/
+theorem c08_try_lock (hwf : c.WF) (hs : Reachable c s) (t a : Nat) (r : Round) (hpc : s.pc a = Pc.top)
+    (hr : curRound c s a = some r) (hfl : r.fl = Flavour.try_) :
+    let res := agentStep c s t a
+    res.2.2 = Outcome.op ∧
+    ((res.1.pc a = Pc.crit ∧ Owner res.1 a ∧ ∀ y, ¬ Owner s y) ∨ (res.1.pc a = Pc.tryFail ∧ ∃ y, Owner s y)) ∧
+    (res.1.pc a = Pc.tryFail →
+      (agentStep c res.1 t a).1.pc a = Pc.top ∧ (agentStep c res.1 t a).1.round a = s.round a + 1 ∧
+      (agentStep c res.1 t a).2.2 = Outcome.continue_) := by
+  intro res
+  have hres : res = agentStep c s t a := rfl
+  unfold agentStep at hres
+  simp only [hpc, hr, hfl] at hres
+  cases hq : s.req with
+  | nil =>
+    simp only [hq] at hres
+    have hno := (c08_not_stuck_locked hwf hs).2.2 hq
+    refine ⟨by rw [hres], Or.inl ⟨by rw [hres]; simp [setPc], by rw [hres]; simp [Owner, setPc, isOwner], hno⟩, ?_⟩
+    intro h; rw [hres] at h; simp [setPc] at h
+  | cons e es =>
+    simp only [hq] at hres
+    have hex := (c08_not_stuck_locked hwf hs).1 (by rw [hq]; simp)
+    obtain ⟨y, hy, _⟩ := hex
+    refine ⟨by rw [hres], Or.inr ⟨by rw [hres]; simp [setPc], y, hy⟩, ?_⟩
+    intro h
+    unfold agentStep
+    simp only [h]
+    rw [hres]
+    simp [setPc]
+
+/- 2's `try_lock` in `runS` fails (0 owns the mutex), 2's `try_lock` in `runZ` (second round) succeeds -/
+example : (arun cfgSy (init cfgSy) (runS.take 7)).pc 2 = Pc.tryFail ∧ sS.pc 2 = Pc.top ∧ sS.round 2 = 1 ∧ Owner sS 0 := by
+  decide
+example : (arun cfgEx (init cfgEx) (runZ.take 16)).pc 2 = Pc.top ∧ (arun cfgEx (init cfgEx) (runZ.take 17)).pc 2 = Pc.crit := by
+  decide
+
+/-- **Relockable.** When every agent has finished, the mutex is free again (`_requests = nullptr`, `_queue` empty);
+    and whenever nobody owns it, a new `ready()` CAS succeeds. -/
+theorem c08_relockable (hwf : c.WF) (hs : Reachable c s) :
+    ((∀ a, s.pc a = Pc.done) → s.req = [] ∧ s.queue = []) ∧
+    ((∀ a, ¬ Owner s a) → ∀ t a r, s.pc a = Pc.top → curRound c s a = some r →
+        (agentStep c s t a).1.pc a = Pc.crit ∧ Owner (agentStep c s t a).1 a) := by
+  have hnsl := c08_not_stuck_locked hwf hs
+  constructor
+  · intro hd
+    have := hnsl.2.1 (fun a ha => by simp [Owner, hd a, isOwner] at ha)
+    exact ⟨this.1, this.2.1⟩
+  · intro hno t a r hpc hr
+    have hq := (hnsl.2.1 hno).1
+    unfold agentStep
+    simp [hpc, hr, hq, setPc, Owner, isOwner]
+
+
+example : (∀ a, a < 3 → sZ.pc a = Pc.done) ∧ sZ.req = [] ∧ sZ.queue = [] := by decide
+
+/-! ## transfer to the OS-thread level (the level the harness exercises) -/
+
+/-- **C07/C08 hold for every schedule of OS threads**: the state after any schedule of enabled threads
+    (`threadStep`, any fuel) is `Reachable`, so every theorem above and in `Props/C07.lean` applies to it. -/
+theorem c08_thread_level (hwf : c.WF) (fuel : Nat) (ts : List Nat) (hg : TGuarded c fuel (init c) ts) :
+    Reachable c (trun c fuel (init c) ts) :=
+  trun_init_reachable hwf fuel ts hg
+
+example : TGuarded cfgEx 100 (init cfgEx) schedZ := by decide
+example : (trun cfgEx 100 (init cfgEx) schedB).queue = sB.queue ∧ (trun cfgEx 100 (init cfgEx) schedB).cur 0 = some 1 ∧
+    (∀ a, a < 3 → (trun cfgEx 100 (init cfgEx) schedZ).pc a = Pc.done) := by decide
 
 end Cocls.Mutex
